@@ -222,12 +222,12 @@ CHECKS["C16"] = {
     "level": "model_checking",
     "technique": "exhaustive enumeration of connection-event histories for one client id on the real broker goroutines (quiescence by testing/synctest), reference session model",
     "level_text": "every well-formed sequence of events {connect clean, connect non-clean (takeover when one is open), subscribe t1/t2, unsubscribe, network drop of the current connection, network drop of a superseded "
-                  "connection (= the moment its read loop notices), admin session delete} up to the bound, on the real Broker with raw MQTT clients; after every event probe messages on every topic and the broker's "
+                  "connection (= the moment its read loop notices), write-dead current connection, admin session delete, session storage stalls / resumes (puts block meanwhile)} up to the bound, on the real Broker with raw MQTT clients; after every event probe messages on every topic and the broker's "
                   "registration/session map are compared with the reference session model (DESIGN A.6)",
     "level_note": "events are separated by quiescence (synctest.Wait), i.e. the interleaving of goroutines inside one event is the Go runtime's; up to 3 connections per history",
     "rule": "choice tree over the events enabled in each state; distinct_nontrivial = distinct event histories",
     "explanation": "states = executions (event histories run on a fresh real broker); transitions = executions",
-    "bounds": {"quick": "histories of 5 events", "thorough": "histories of 7 events"},
+    "bounds": {"quick": "histories of 7 events", "thorough": "histories of 8 events"},
     "assumptions": ["synctest.Wait quiescence"],
     "units": [
         {"name": "mqttproxy", "pkg": "pkg/object/mqttproxy", "test": "TestVerifC16", "inject": [BROKERRIG], "instrument": BROKERINSTR},
@@ -262,7 +262,8 @@ CHECKS["C11"] = {
     "level_text": "(a) for 10 filter kinds x {same, changed spec} x 0-2 earlier requests: after the real Pipeline.Inherit (which closes the old generation) a request still holding the old generation and one on the new "
                   "generation complete without panic; (b) BFS over create/update/apply/delete of pipelines p1,p2 and a traffic gate: after every operation every other object still resolves through the gate's mapper "
                   "and answers with its own generation, Apply of an equal spec is a no-op; (c) 2 requests || ApplyPipeline || Delete+Create under the scheduler: no request fails or mixes generations, "
-                  "a request started after the update sees the new generation; (d) requests || mux.reload under the scheduler: every per-request option comes from one generation",
+                  "a request started after the update sees the new generation; (d) requests || mux.reload under the scheduler: every per-request option comes from one generation; "
+                  "(e) reload differential: for every ordered pair of 7 server specs (rules, body limit, route cache, server-level ipFilter) x 0-2 warm-up requests, after reload every request is answered exactly as by a fresh mux built from the new spec",
     "level_note": "sync of trafficcontroller.go and sync/atomic of mux.go replaced by gated shims; a recording filter yields between the filters of a pipeline; the HTTPServer runtime (real listener restart) is not covered",
     "rule": "choice trees: spec change / request count; BFS canonical state = live objects with generation; scheduler choices; distinct_nontrivial = distinct outcome classes",
     "explanation": "states = BFS canonical states + executions; transitions = BFS transitions + executions; all on the real objects",
@@ -298,7 +299,7 @@ LOOPBACK = ["pkg/object/httpserver", "harness/common/loopback"]
 CHECKS["C03"] = {
     "level": "exploration",
     "technique": "deviation-bounded exhaustive enumeration (choice-tree DFS) of (request, backend answer, configuration) triples over real loopback sockets with a raw-socket client",
-    "level_text": "every single deviation and every pair (thorough: triple) of deviations from a base triple over 24 dimensions (method, escaped paths, queries, repeated / hop-by-hop / Connection-named headers, "
+    "level_text": "every single deviation and every pair (thorough: triple) of deviations from a base triple over 25 dimensions (method, escaped paths, queries, repeated / hop-by-hop / Connection-named headers incl. a second Connection line, "
                   "request body size x length-declared|chunked|gzip, backend status, body size around the compression threshold, framing, Content-Encoding, pipelines with Request/ResponseAdaptor body|compress|decompress, "
                   "server by IP|host name|keepHost, compression, buffered|stream) is sent through the real http.Server + mux + Pipeline + Proxy to a real backend; oracle on what the backend received and on the bytes the client received (framing parsed by hand)",
     "level_note": "free-running real net/http stack: the enumeration is over inputs and configurations, not schedules; no timing in the oracle; HTTP/1.1 only",
@@ -346,7 +347,7 @@ CHECKS["C19"] = {
     "level": "fault_enumeration",
     "technique": "exhaustive enumeration of write histories x fault points (etcd server stop/start) x consumers x APIs against the real syncer on an embedded etcd",
     "level_text": "every history of up to 3 (thorough 4) operations from {put k1=v1, put k1=v2, del k1, put k2=v1, del k2, put outside the prefix} x {eager consumer, consumer that reads only afterwards} x {SyncPrefix, Sync (+ raw variants)} "
-                  "x {burst, spaced writes}; thorough: every history of <=2 operations x an etcd server stop+start before every operation and after the last; oracle: each snapshot is a content the store had, positions non-decreasing, "
+                  "x {burst, spaced writes}; continuations (every operation pair) after a consumer that stopped reading for 30 pull periods and then drains; thorough: every history of <=2 operations x an etcd server stop+start before every operation and after the last; oracle: each snapshot is a content the store had, positions non-decreasing, "
                   "consecutive snapshots differ, the final content arrives within 100 pull periods without further writes, nothing spurious follows",
     "level_note": "schedules inside etcd / the gRPC client are not controlled (free-running): the enumeration is over histories and fault points; a server-side watch cancellation cannot be provoked from outside and is covered only through the restart fault and the periodic pull",
     "rule": "choice tree: api, consumer, gap, history length, each operation, restart point; distinct_nontrivial = distinct (api, number of distinct contents, number of snapshots) classes",
